@@ -143,6 +143,17 @@ def kind(rows, i):
             return "next.behind-snapshot"          # a batch older than the snapshot already delivered
         if it["k"] == "ev" and x["snapidx"] > 0 and it["idx"] <= x["ridx"]:
             return "next.pre-restore-batch"        # a batch of the store that a restore replaced
+        if it["k"] == "ev" and x["snapidx"] > 0 and it["idx"] < x.get("sbirth", 0):
+            # a batch committed before the snapshot was read, delivered behind it although the subscription passes
+            # over batches below the snapshot index: the snapshot's reported (query) index is below the store's
+            return "next.behind-misindexed-snapshot"
+        seen_reg = set()
+        for v in it["evs"]:
+            if v["op"] == "reg":
+                seen_reg.add(v["id"])
+            elif v["op"] == "dereg" and v["id"] in seen_reg:
+                # one batch registers an instance and THEN deregisters the same instance (same subject)
+                return "next.reg-then-dereg-in-batch"
         return "next." + it["k"]
     if t == "sub":
         y = e["post"]["cl"][c["c"] - 1]
@@ -159,7 +170,7 @@ def behaviour_of(rows, i):
     lo = i
     while "pre" not in rows[lo]:
         lo -= 1
-    cfg = {"t": "cfg", "ttl": rows[lo]["pre"]["ttl"], "nc": len(rows[lo]["pre"]["cl"])}
+    cfg = {"t": "cfg", "ttl": rows[lo]["pre"]["ttl"], "nc": len(rows[lo]["pre"]["cl"]), "deny": rows[lo]["pre"].get("deny", {})}
     cmds = [cfg]
     for e in rows[lo:i + 1]:
         c = {k: v for k, v in e["cmd"].items() if k not in ("q", "fromidx", "skey")}
